@@ -19,7 +19,8 @@ RULE = (
 REQUIRED = ["siphon_sets_checked", "trap_sets_checked", "enabled_contract_evals", "fire_contract_evals",
             "realizable_true", "realizable_false", "certificates_replayed", "catalyst_firings",
             "networks_with_siphon_larger_than_2", "flows_needing_specific_order", "analyzer_checked", "history_after_borrow_checked", "borrow_vectors_nonzero",
-            "scaled_search_checked", "flows_realizable_only_after_scaling", "siphon_family_4x4_checked"]
+            "scaled_search_checked", "flows_realizable_only_after_scaling", "siphon_family_4x4_checked",
+            "via_graph_without_coefficients"]
 ASSUMPTIONS = [
     "realizability compared only for flows whose product of (flow+1) <= 10^4 (complete search on both sides, well inside the code's default bounds)",
     "max_size argument: expected = inclusion-minimal sets among those of size <= max_size",
@@ -122,7 +123,10 @@ def check_structure(ctx, net, tag="", via_graph=False):
     obj = H
     if via_graph:
         from synkit.CRN.Hypergraph.conversion import hypergraph_to_bipartite
-        obj = hypergraph_to_bipartite(H, integer_ids=False)
+        # exported with or without coefficient attributes (siphons and traps depend on the arcs only)
+        no_st = (len(net) + sum(len(a) + len(b) for _, a, b in net)) % 2 == 1
+        obj = hypergraph_to_bipartite(H, integer_ids=False, include_stoich=not no_st)
+        ctx.count("via_graph_without_coefficients" if no_st else "via_graph_with_coefficients")
     sip, trp = brute_sets(net, species)
     wit = {"net": net, "reactions": W.fmt_net(net), "via_graph": via_graph}
     for name, fn, allsets in (("siphon", find_siphons, sip), ("trap", find_traps, trp)):
